@@ -563,9 +563,11 @@ func suiteCodec(args []string) {
 	rep := &Report{Suite: "codec", Seed: *seed, Distribution: map[string]int{}, Extra: map[string]interface{}{}}
 	rep.Rule = "a case is one model command (enc <value> | dec <type> <bytes> | rt <value> | stream <type> <bytes>); distinct = distinct command text; non-trivial = every case except decode inputs shorter than one 8-byte header"
 	types := sortedTypeNames()
+	perKind := map[string]int{}
 	viol := func(kind string, m map[string]interface{}) {
 		m["kind"] = kind
-		if len(rep.Violations) < 50 {
+		perKind[kind]++
+		if perKind[kind] <= 8 { // a few of every kind: one kind must not crowd out the others
 			rep.Violations = append(rep.Violations, m)
 		}
 	}
